@@ -249,6 +249,25 @@ fmt_bytes(char * out, size_t outsz, const uint8_t * b, size_t n)
 static int r_waiting(void);
 static int rcb(void *, int);
 
+/*
+ * Every wait is issued with its own cookie and alternately with one of two callback functions: the completion of a
+ * wait must be reported to THAT wait's callback with THAT wait's cookie, also when it is satisfied from the buffer.
+ */
+static uintptr_t wait_seq;
+static int wait_which;
+static int rcb_a(void *, int);
+static int rcb_b(void *, int);
+#define CUR_COOKIE()	((void *)(wait_seq * 16 + 8))
+
+static int
+seq_wait(size_t k)
+{
+
+	wait_seq++;
+	wait_which = (int)(wait_seq & 1);
+	return (netbuf_read_wait(R, k, wait_which ? rcb_a : rcb_b, CUR_COOKIE()));
+}
+
 #ifdef HC_BLACKBOX
 /* the harness's own account of the two contract guards (see the head of the file) */
 static int bb_rwait;		/* a wait is outstanding */
@@ -260,7 +279,7 @@ bb_wait(size_t k)
 	int rc;
 
 	bb_rwait = 1;
-	if ((rc = netbuf_read_wait(R, k, rcb, NULL)) != 0)
+	if ((rc = seq_wait(k)) != 0)
 		bb_rwait = 0;
 	return (rc);
 }
@@ -271,12 +290,39 @@ bb_wait(size_t k)
 #define BB(stmt)	do { stmt; } while (0)
 #define L2(stmt)	((void)0)
 #else
-#define R_WAIT(k)	netbuf_read_wait(R, (k), rcb, NULL)
+#define R_WAIT(k)	seq_wait(k)
 #define W_RESERVED()	(W->reserved)
 #define W_CONSUME(len)	netbuf_write_consume(W, (len))
 #define BB(stmt)	((void)0)
 #define L2(stmt)	do { printf(" | "); stmt; } while (0)
 #endif
+
+static void
+wrong_wait(const char * what)
+{
+
+	fflush(stdout);
+	fprintf(stderr, "ERROR: WRONG-CALLBACK: a wait was answered through %s of an earlier wait\n", what);
+	abort();
+}
+
+static int
+rcb_a(void * cookie, int status)
+{
+
+	if (wait_which != 1)
+		wrong_wait("the callback function");
+	return (rcb(cookie, status));
+}
+
+static int
+rcb_b(void * cookie, int status)
+{
+
+	if (wait_which != 0)
+		wrong_wait("the callback function");
+	return (rcb(cookie, status));
+}
 
 static int
 rcb(void * cookie, int status)
@@ -285,7 +331,8 @@ rcb(void * cookie, int status)
 	uint8_t * data;
 	size_t avail, k;
 
-	(void)cookie;
+	if (cookie != CUR_COOKIE())
+		wrong_wait("the cookie");
 	activity++;
 	BB(bb_rwait = 0);	/* the library calls back only after it has dropped the wait */
 	if (status == 0) {
